@@ -36,6 +36,16 @@ CHECKS["C12"] = dict(
          "results and call log vs concrete filtering.",
     note="Assumed: inspect.signature parameter order, itertools.product = Cartesian product, user callables opaque; pyvc semantics; z3.",
 )
+CHECKS["C16"] = dict(
+    category="other",
+    technique="contract-based deductive verification: sequence/set model contracts on every write path (real ast executed symbolically, z3); contents enumerated to length 3",
+    text="Each write operation of the property (assignment, self-assignment, +=, |=, append, extend, insert, item assignment, add, update) "
+         "is executed as a statement of the interpreted program through the real __get__/__set__/MonitoredList/MonitoredSet code from "
+         "contents of length 0..2 with opaque elements; post: contents equal the Python list/set model and every element that became "
+         "part of the field has its relation recorded. Level 'other': lengths are enumerated. Bounded stand-in: all operation "
+         "sequences of length <=2 (thorough 3) on the real dataset classes vs a plain list/set and element-wise appending.",
+    note="Assumed: builtin list/set semantics, the += / |= desugaring, weakref; the inferences triggered by a recorded relation are C15's subject.",
+)
 NOT_APPLICABLE = {
     "C05": "decided by SQLAlchemy/SQLite semantics acting on generated code; no krrood function body carries it, so no contract within reach can express it (DESIGN.md §4)",
 }
